@@ -148,7 +148,10 @@ pub fn judge_binary(desc: &CaseDesc, c: Compression) -> (String, Vec<(String, St
             ));
             ("decode-panic".into(), v)
         }
-        Outcome::Ok { forest, .. } => {
+        Outcome::Ok { forest, entry_points, .. } => {
+            for e in entry_points {
+                v.push((format!("bin|entry-points|{}", e.split(' ').next().unwrap_or("")), format!("{} [case {}]", e, label_of(desc))));
+            }
             let expected = expected_for(&plan, Codec::Binary, XmlMode::Default, FloatMode::Exact);
             if std::env::var("VERIF_DEBUG").is_ok() {
                 println!("expected: {:?}\nread back: {:?}", expected, forest);
@@ -200,7 +203,10 @@ pub fn judge_xml(desc: &CaseDesc, mode: XmlMode) -> (String, Vec<(String, String
             ));
             ("decode-panic".into(), v)
         }
-        Outcome::Ok { forest, .. } => {
+        Outcome::Ok { forest, entry_points, .. } => {
+            for e in entry_points {
+                v.push((format!("xml|entry-points|{}", e.split(' ').next().unwrap_or("")), format!("{} [case {}, {:?}]", e, label_of(desc), mode)));
+            }
             let expected = expected_for(&plan, Codec::Xml, mode, FloatMode::NanClass);
             let diffs = diff_forest(&expected, &forest, &|_, _, _| false);
             if !diffs.is_empty() {
